@@ -65,10 +65,10 @@ func GenC05(r *core.Rand, tier string) core.Schedule {
 	cfg.MaxInMemLogSize = []uint64{0, 130, 200, 400, 1000, 2000, 1 << 20}[r.Intn(7)]
 	cfg.LogCacheSize = []int{0, 0, 1, 3, 50}[r.Intn(5)]
 	cfg.MaxMsg = []uint64{0, 0, 200, 1000, 50000}[r.Intn(5)]
-	cfg.PollMs = []int{100, 500, 1000}[r.Intn(3)]
-	cfg.LeaseMs = []int{300, 1000, 2000}[r.Intn(3)]
-	cfg.ReconcileMs = []int{1000, 3000}[r.Intn(2)]
-	cfg.LogTimeoutMs = []int{2000, 5000}[r.Intn(2)]
+	cfg.PollMs = []int{101, 503, 997}[r.Intn(3)] // primes: the periodic loops rarely tick at the same fake instant
+	cfg.LeaseMs = []int{307, 1009, 2003}[r.Intn(3)]
+	cfg.ReconcileMs = []int{1013, 3011}[r.Intn(2)]
+	cfg.LogTimeoutMs = []int{2003, 5003}[r.Intn(2)]
 	for i := 0; i < cfg.Leaders+cfg.Followers; i++ {
 		cfg.RecoveryTypes = append(cfg.RecoveryTypes, r.Intn(2))
 	}
@@ -97,7 +97,7 @@ func GenC05(r *core.Rand, tier string) core.Schedule {
 				steps = append(steps, g.write(r.Intn(created), r.Intn(cfg.Leaders)))
 			}
 		case 1:
-			steps = append(steps, Step{Op: "advance", Ms: []int{50, 200, 600, 1500, 4000, 9000}[r.Intn(6)]})
+			steps = append(steps, Step{Op: "advance", Ms: []int{53, 211, 601, 1511, 4001, 9001}[r.Intn(6)]})
 		case 2:
 			steps = append(steps, Step{Op: "snapshot", Shard: "table", T: r.Intn(created), Replica: 0})
 		case 3:
@@ -107,7 +107,7 @@ func GenC05(r *core.Rand, tier string) core.Schedule {
 			} else {
 				steps = append(steps, Step{Op: "crashnode", F: true, N: fn})
 			}
-			steps = append(steps, Step{Op: "advance", Ms: []int{100, 1000, 5000}[r.Intn(3)]})
+			steps = append(steps, Step{Op: "advance", Ms: []int{103, 1019, 5009}[r.Intn(3)]})
 			steps = append(steps, Step{Op: "startnode", F: true, N: fn})
 		case 4:
 			steps = append(steps, Step{Op: "workerrestart", N: r.Intn(cfg.Followers)})
